@@ -19,6 +19,10 @@ func init() {
 			a.c08Plaintext("S.plaintext-retention")
 			a.randDestinations("S.rand-dest")
 			a.endForgetsLastText("S.plaintext-retention")
+			a.exchangeWipedOnEveryPath("S.lifecycle-wipes")
+			a.abandonWipes("S.lifecycle-wipes")
+			a.handlersOnlyThroughTable("S.tlv-loop")
+			a.resendKeepsCopy("S.plaintext-retention")
 		})
 }
 
